@@ -48,7 +48,7 @@ class C15(DiffProperty):
             "c = C object kinds (harness counted/unique metatypes and buffer with logging vtables; library buffer, geninfo, meta "
             "buffer, config root and static top, deferrable reply context, rawdata, stream input) under new/addref/unref/clone/"
             "assignment through conversion/reference-traits init+fini (metatype, input and array traits)/element-wise reference "
-            "array copy/array clone+clear/buffer detach/rawdata array member/reply defer/counter field forced to 1,2,max-1,max; "
+            "array copy/array clone+clear/buffer detach (also with a refused content copy)/rawdata array member/reply defer/counter field forced to 1,2,max-1,max; "
             "x = mpt++ reference<T> under set_instance/copy-assign/copy-construct/move/detach/raw addref+unref/forced counter; "
             "r,y = the bare counter through mpt_refcount_raise/lower and refcount::raise/lower from 0,1,2,max-1,max. quick: EVERY "
             "ordered pair (old kind, new kind) x shared/unshared x {conversion, traits init, rcopy} x target empty/held/same, "
@@ -69,25 +69,30 @@ class C15(DiffProperty):
                "every case reports objects neither freed nor reachable",
                "uintptr_t is 64 bit (checked by the harness at run time; the model's modulus is 2^64)",
                "the element-wise copy loop with undo of ORefCopy is the harness' own (the traits contract), not library code"]
-    level_text = ("proof: Coq theorems (coq/C15/Properties.v) state for the transcribed mechanism, for EVERY history of the 23 handle "
+    level_text = ("proof: Coq theorems (coq/C15/Properties.v) state for the transcribed mechanism, for EVERY history of the 24 handle "
                   "operations from the empty state (induction over the operation list, no bound on length, objects or counter "
-                  "values): raise refuses 0 and the maximum instead of wrapping and lower returns the remaining count "
-                  "(C15_raise_refuses_zero_and_max, C15_lower_returns_remaining, C15_counter_refines_spec), every live counted "
-                  "object's counter equals the number of handles on it in slots, locals and owning objects plus those the "
-                  "environment forced (C15_count_is_handles), an object is destroyed iff no handle on it is left, no history "
-                  "touches a destroyed object, nothing unreachable is left alive (C15_destroy_exactly_at_zero, "
-                  "C15_history_never_faults, C15_no_leak_when_dropped), and assignment through conversion releases the old referent "
-                  "once and retains the new one once or fails without effect (C15_assign_releases_old_once_retains_new_once, "
-                  "C15_assign_refused_unchanged, C15_assign_same_unchanged); the model is tied to the code on every run by "
-                  "differential execution under ASan/UBSan/LSan with counters, destruction time and call order compared")
+                  "values): raise refuses 0 and the maximum instead of wrapping, lower returns the remaining count and the "
+                  "modular counter equals the unbounded one (C15_raise_refuses_zero_and_max, C15_lower_returns_remaining, "
+                  "C15_counter_refines_spec); every live counted object's counter equals the number of handles on it in slots, "
+                  "locals and owning objects plus those the environment forced, and stays in 1..2^64-1 (C15_count_is_handles); "
+                  "unshareable kinds have exactly one handle (C15_unique_has_one_handle); an object is destroyed iff no handle on "
+                  "it is left and no handle refers to a destroyed object (C15_destroy_exactly_at_zero), no history touches a "
+                  "destroyed object (C15_history_never_faults), an unreachable object lives only while its counter is forced "
+                  "(C15_unreachable_only_if_forced); the invariant is inductive from any state (C15_step_preserves_invariant); "
+                  "assignment through conversion releases the old referent once and retains the new one once, or fails / is a "
+                  "self-assignment without effect (C15_assign_releases_old_once_retains_new_once, C15_assign_refused_unchanged, "
+                  "C15_assign_same_unchanged); the model is tied to the code on every run by differential execution under "
+                  "ASan/UBSan/LSan with counter fields, destruction time and vtable call order compared")
     level_note = ("trusted: Coq kernel; hand transcription of the C/C++ sources (validated by the correspondence run, not verified); "
-                  "extraction and OCaml driver; harness. The executable handle-multiset specification (RefcountSpec.v: no counter, "
-                  "alive/count derived from the handles) is the oracle of the check; its agreement with the model is established "
-                  "state-wise by the theorems (counter = handles, destroyed <-> none) and step-wise only by the correspondence run "
-                  "(no Coq proof that srun = mrun). Kinds whose destruction is seen only through ASan/LSan (stream input, rawdata, "
-                  "reply context, geninfo, meta buffer, config root) are correspondence-level for the destruction TIME; buffer "
-                  "contents/typed elements (C04/C05) and reply transport (C12) are outside. Holds for the tree with the fix: commits "
-                  "of branch verif-C15. All theorems closed under the global context.")
+                  "extraction and OCaml driver; harness. PARTIAL: the executable handle-multiset specification (RefcountSpec.v: no "
+                  "counter, alive/count derived from the handles), which is the oracle of the check, is tied to the model "
+                  "state-wise by the theorems (counter = handles, destroyed <-> none) but step-wise (which slot holds what after "
+                  "each operation, refusal decisions) only by the correspondence run: there is no Coq proof that srun = mrun. "
+                  "Kinds whose destruction is seen only through ASan/LSan (stream input, rawdata, reply context, geninfo, meta "
+                  "buffer, config root) are correspondence-level for the destruction TIME; buffer contents / typed elements "
+                  "(C04/C05) and reply transport (C12) are outside. The theorems hold for the tree with the five fix: commits of "
+                  "branch verif-C15 (data_converter.c, input_traits.c, array_clone.c, buffer_alloc.c detach failure path). "
+                  "All 12 theorems closed under the global context.")
     technique = "Coq invariant proof over all operation histories (counter = handle multiset) + differential correspondence check"
     assumptions = ["malloc succeeds", "single thread", "uintptr_t has 64 bits"]
 
